@@ -578,11 +578,21 @@ pub fn gen_cipher(rng: &mut Prng, w: &World, allow_seed: bool, max_size: usize) 
 }
 
 pub fn gen_terms(rng: &mut Prng, n: usize) -> Vec<usize> {
-    match rng.below(6) {
+    match rng.below(8) {
         0 => vec![],
         1 => vec![rng.usize_below(n)],
         2 => (0..n).collect(),
         3 => vec![0, n - 1],
+        // every coefficient, but not in ascending order (a full list is where "select all" shortcuts live)
+        4 => {
+            let mut all: Vec<usize> = (0..n).collect();
+            match rng.below(3) {
+                0 => all.reverse(),
+                1 => all.rotate_left(rng.range(1, n - 1)),
+                _ => rng.shuffle(&mut all),
+            }
+            all
+        }
         _ => {
             let mut all: Vec<usize> = (0..n).collect();
             rng.shuffle(&mut all);
